@@ -488,16 +488,34 @@ def mutable_option_family(ctx: Ctx):
 
 
 def probe_empty_symbol(ctx: Ctx):
-    """ASSUMPTION 'no "" in input_symbols': refused by the NFA constructor since /repo 07f4843."""
-    r = call(lambda: NFA.edit_distance({"", "a"}, "aa", 1, insertion=False, deletion=False, substitution=True))
-    if r == ("err", "InvalidSymbolError"):
-        ctx.stat("probe_empty_string_symbol_refused")
-    else:
+    """'' among the input symbols (F28, repaired by /repo 07f4843: the constructors refuse it).  If it
+    is accepted again, "" as an input symbol makes add_any_transition add an ε-edge, i.e. a deletion
+    although deletion is disabled: the result is judged by the DP like any other (strings over
+    {'', 'a'} are the strings over {'a'}), and a wrong word is a failing input."""
+    for sigma, ref, k, ins, dele, sub in (({"", "a"}, "aa", 1, False, False, True),
+                                          ({"", "a", "b"}, "ab", 1, True, False, False),
+                                          ({"", "a"}, "a", 0, True, True, True)):
+        r = call(lambda: NFA.edit_distance(set(sigma), ref, k, insertion=ins, deletion=dele, substitution=sub))
+        ctx.case(None)
+        if r == ("err", "InvalidSymbolError"):
+            ctx.stat("probe_empty_string_symbol_refused")
+            continue
         ctx.stat("probe_empty_string_symbol_NOT_refused")
-        acc = r[1].accepts_input("a") if r[0] == "ok" else None
-        ctx.note("NFA.edit_distance({'', 'a'}, 'aa', 1, substitution only) is no longer refused "
-                 f"(observed {r[0]} {r[1] if r[0] == 'err' else ''}; accepts 'a' = {acc}): \"\" as an input symbol makes "
-                 "add_any_transition add an ε-edge, i.e. a deletion although deletion is disabled")
+        rp = dict(kind="empty_symbol", sigma=sorted(sigma), ref=ref, k=k, ins=ins, dele=dele, sub=sub)
+        if r[0] == "err":
+            ctx.prop_fail(f"edit_distance({sorted(sigma)!r}, {ref!r}, {k}, ins={ins}, del={dele}, sub={sub}) with the empty "
+                          f"string among the input symbols is neither refused with InvalidSymbolError nor answered: "
+                          f"{r[1]}", rp, None)
+            continue
+        letters = sorted(sigma - {""})
+        for w in gen.words_upto(letters, 4):
+            want = dp_within(ref, w, k, ins, dele, sub)
+            got = call(lambda: r[1].accepts_input(w))
+            if got != ("ok", want):
+                ctx.prop_fail(f"edit_distance({sorted(sigma)!r}, {ref!r}, {k}, ins={ins}, del={dele}, sub={sub}) — the empty "
+                              f"string is accepted as an input symbol — answers {got} for {w!r}, which is "
+                              f"{'' if want else 'not '}within {k} enabled edits of the reference", dict(rp, word=w), None)
+                break
 
 
 def judge_program_json(text: str):
@@ -660,6 +678,8 @@ def replay(ctx: Ctx, path: str) -> int:
     if rp.get("kind") == "sequence":
         for i, what in judge_program_json(json.dumps(rp["cases"])):
             ctx.prop_fail(f"call {i + 1} of {len(rp['cases'])}: {what}", rp, None)
+    elif rp.get("kind") == "empty_symbol":
+        probe_empty_symbol(ctx)
     elif rp.get("kind") == "mutable_option":
         check_live(ctx, rp["input_symbols"], rp["reference_str"], rp["max_edit_distance"], rp["insertion"], rp["deletion"],
                    rp["substitution"], rp["mode"], rp["order_seed"], rp["interleave"], origin="replay",
